@@ -121,7 +121,10 @@ def run(ctx):
   from . import c01
   ctx.borrow(c01.rule_merge, "R-C16-MONO")
   T.rule_all_curves(ctx, "R-C16-ONCE")          # an artifact on a curve the loop never reaches gets no entry at all
-  ctx.expect("R-C16-ONCE", 28, "24 Check bodies + 4 loops over the curve table")
+  # the aggregate RSA checks walk the result of BatchGCD: it must hold one entry per input value, in input order, on every path (shared with C03)
+  from . import c03
+  ctx.borrow(c03.rule_dedup, "R-C16-ONCE")
+  ctx.expect("R-C16-ONCE", 31, "24 Check bodies + 4 loops over the curve table + BatchGCD one entry per input")
   ctx.expect("R-C16-PAIR", 24, "24 Check bodies")
   ctx.expect("R-C16-SEVERITY", 29 + 9 + 1, "29 registered classes + 9 README rows + GetHighestSeverity")
   ctx.expect("R-C16-MONO", 10, "six clauses of SetTestResult/AttachInfo + three of AttachFactors")
@@ -1216,6 +1219,28 @@ def rule_issuer(ctx, bodies):
           okj = True
       if not okj:
         probs.append("index i does not range over points[PublicPoint(key.ec_info)]")
+  # (e) the key signatures are grouped under determines the ECKey that is checked for the group: the EC checks read curve_type, x and y of the issuer key
+  # info, so the grouping key must cover the curve type as well as the point (two signatures with equal coordinates on different curves are different
+  # keys: merged, only the first is checked and its verdict is copied to the other - order-dependent and wrong for one of them)
+  keys = []
+  for e in b.events:
+    if e.kind == "store" and isinstance(e.data.get("index"), (Poly, Seq)) and "PublicPoint" in repr(e.data["index"]):
+      keys.append(as_poly(e.data["index"]))
+    if e.kind in ("call", "return", "loophead"):
+      for fc in e.facts:
+        if fc[0] == "cmp" and fc[1] in ("In", "NotIn") and isinstance(fc[2], (Poly, Seq)) and "PublicPoint" in repr(fc[2]):
+          keys.append(as_poly(fc[2]))
+  for info in b.result_loops():
+    for visit in info.get("visits", []):
+      it_ = visit.get("iter")
+      if isinstance(it_, Poly) and it_.as_atom() is not None and it_.as_atom().kind == "idx" and "PublicPoint" in repr(it_.as_atom().args[1]):
+        keys.append(as_poly(it_.as_atom().args[1]))
+  if not keys:
+    probs.append("grouping key of the issuer map not found")
+  for k_ in keys:
+    if not any(t_.kind == "attr" and len(t_.args) == 2 and t_.args[1] == "curve_type" for t_ in k_.all_atoms()):
+      probs.append("issuer keys are grouped by their coordinates only: two signatures whose issuer keys have equal (x, y) but different curve_type are merged, "
+                   "only the first key is checked and its verdict is copied to the other")
   # (d) flag derives from key.test_info.weak of the same key
   for info in b.loops():
     pass
